@@ -117,7 +117,9 @@ struct Stored {
 
 pub fn run_history(ctx: &Ctx, steps: &[Step], tr_policy: u64, sorenson: bool, rng: &mut Rng, rep: &mut Report, coords: &dyn Fn() -> J) {
     let hist: String = steps.iter().map(|s| s.ch()).collect();
-    let flavour = if sorenson { Flavour::Sor(rng.below(2) as u8) } else { Flavour::StdPlus };
+    // Sorenson streams: version 0 or 1 as a rule; now and then another value of the 5-bit field (the decoder
+    // takes all 32; anything but 1 uses the version-0 escape form)
+    let flavour = if sorenson { Flavour::Sor(if rng.chance(1, 6) { 2 + rng.below(30) as u8 } else { rng.below(2) as u8 }) } else { Flavour::StdPlus };
     let long = steps.len() > 40;
     let (w, h) = if long {
         (32, 16)
@@ -162,6 +164,11 @@ pub fn run_history(ctx: &Ctx, steps: &[Step], tr_policy: u64, sorenson: bool, rn
         };
         cfg.tr = tr;
         cfg.quant = 1 + rng.below(31) as u8;
+        // extra-information bytes (whatever they say, they do not concern which picture is shown or referenced)
+        cfg.pei = if long { 0 } else { *rng.pick(&[0usize, 0, 1, 1, 2]) };
+        if cfg.pei > 0 {
+            rep.count("pictures_with_extra_information_bytes");
+        }
         let ctxs = |what: &str| format!("history {} step {} ({}) tr-policy {} {}x{} {}: {}", hist, si, st.ch(), tr_policy, w, h, flavour.name(), what);
         match st {
             Step::C => {
@@ -501,7 +508,7 @@ pub fn run(ctx: &Ctx) -> (Report, String) {
     if ctx.is_main() {
         let m = ctx.scale_pct;
         rep.require("histories_completed", if thorough { 2_500_000 } else { 150_000 } * m / 100);
-        for k in ["predictions_identified", "predictions_after_non_reference_event", "tr_collision_cases", "trigram:IDP", "trigram:PDP", "trigram:DDP", "trigram:DFP", "trigram:DCP", "bigram:DD", "cleanup_calls", "rejected_inputs", "last_picture_checks", "reference_picture_checks", "early_ending_predicted_pictures", "all_intra_disposable_of_other_size", "trigram:TPP", "trigram:XPP", "calls_repeated_after_transient_source_error"] {
+        for k in ["predictions_identified", "predictions_after_non_reference_event", "tr_collision_cases", "trigram:IDP", "trigram:PDP", "trigram:DDP", "trigram:DFP", "trigram:DCP", "bigram:DD", "cleanup_calls", "rejected_inputs", "last_picture_checks", "reference_picture_checks", "early_ending_predicted_pictures", "all_intra_disposable_of_other_size", "trigram:TPP", "trigram:XPP", "calls_repeated_after_transient_source_error", "pictures_with_extra_information_bytes"] {
             rep.require(k, 100 * m / 100);
         }
     }
